@@ -39,7 +39,7 @@ type (
 		Forall bool
 		Vars   []SVarDecl
 		Body   SExpr
-		Trig   []SExpr
+		Trig   [][]SExpr
 	}
 	SLet struct {
 		Name string
@@ -209,14 +209,16 @@ func (p *sparser) quant() SExpr {
 		}
 	}
 	p.expect("::")
-	if p.accept("{") {
+	for p.accept("{") {
+		var grp []SExpr
 		for {
-			q.Trig = append(q.Trig, p.iff())
+			grp = append(grp, p.iff())
 			if !p.accept(",") {
 				break
 			}
 		}
 		p.expect("}")
+		q.Trig = append(q.Trig, grp)
 	}
 	q.Body = p.expr()
 	return q
